@@ -201,7 +201,11 @@ class OpRemove(Op):
         elif isinstance(parent, MutableMapping):
             if obj is UNDEFINED:
                 raise JSONPatchError("can't remove nonexistent property")
-            del parent[_member_name(parent, self.path.parts[-1])]
+            try:
+                del parent[_member_name(parent, self.path.parts[-1])]
+            except KeyError:
+                # A non-standard "#key" token resolves to a name, not a location.
+                raise JSONPatchError("can't remove nonexistent property") from None
         else:
             raise JSONPatchError(
                 f"unexpected operation on {parent.__class__.__name__!r}"
@@ -277,7 +281,12 @@ class OpMove(Op):
         if isinstance(source_parent, MutableSequence):
             del source_parent[int(self.source.parts[-1])]
         if isinstance(source_parent, MutableMapping):
-            del source_parent[_member_name(source_parent, self.source.parts[-1])]
+            try:
+                del source_parent[
+                    _member_name(source_parent, self.source.parts[-1])
+                ]
+            except KeyError:
+                raise JSONPatchError("source object does not exist") from None
 
         # "move" is a "remove" followed by an "add" of the removed value
         # (RFC 6902 section 4.4).
